@@ -2,6 +2,7 @@
 read canonically (differential against strict reference decoders)."""
 import re, struct, os, hashlib
 from hypothesis import strategies as st
+from vf.core import Violation
 
 ID = "C38"
 LEVEL = "exploration"
@@ -16,7 +17,7 @@ LEVEL_TEXT = ("Round trip exactness for every codec named by the property, plus 
               "decode to the value of the same digits.")
 ASSUMPTIONS = ["lenient length numerals accepted by Python int() ('+5', ' 5', '0005') are tolerated when they decode to the same number (counted as class lenient-numeral)",
                "base62 b2a_l/a2b_l with a bit length that is not the full byte length are only exercised, not asserted (the module documents them as caller-agreed)"]
-REQUIRED_CLASSES = ["base32-rt", "base32-mut-rejected", "base62-rt", "base62-mut-rejected", "netstring-rt", "netstring-mut-rejected", "ueb-rt", "ueb-mut-rejected",
+REQUIRED_CLASSES = ["container-mut-odd-enabler-length", "base32-rt", "base32-mut-rejected", "base62-rt", "base62-mut-rejected", "netstring-rt", "netstring-mut-rejected", "ueb-rt", "ueb-mut-rejected",
                     "lease-rt-edge", "lease-v2-hashed", "container-imm-rt", "container-mut-rt", "container-bad-version-rejected"]
 BUDGET = {"quick": 600, "thorough": 3600}
 
@@ -75,7 +76,9 @@ def strat(fam):
         return st.fixed_dictionaries({"fam": st.just(fam), "kind": st.sampled_from(["imm1", "imm2", "mut1", "mut2"]), "size": st.integers(1, 300),
                                       "fill": st.integers(0, 99), "nleases": st.integers(0, 6), "exp": u32(),
                                       "badver": st.none() | st.sampled_from([0, 3, 255, 2 ** 32 - 1]) | st.integers(0, 2 ** 32 - 1),
-                                      "magicflip": st.none() | st.integers(0, 31)})
+                                      "magicflip": st.none() | st.integers(0, 31),
+                                      # length of the write enabler the mutable container is created with (32 is what every client derives)
+                                      "welen": st.sampled_from([32, 32, 32, 32, 0, 3, 31, 33, 40])})
     raise KeyError(fam)
 
 
@@ -463,7 +466,7 @@ def case_container(case, ctx):
     from allmydata.storage.mutable import MutableShareFile
     from allmydata.storage.lease import LeaseInfo
     from allmydata.storage import immutable_schema, mutable_schema
-    from vf.core import pbytes
+    from vf.core import Violation, pbytes
     d = ctx.casedir()
     fn = os.path.join(d, "share")
     data = pbytes(case["fill"], case["size"])
@@ -502,6 +505,34 @@ def case_container(case, ctx):
         schema = [s for s in mutable_schema.ALL_SCHEMAS if s.version == ver][0]
         msf = MutableShareFile(fn, schema=schema)
         nodeid, we = b"\x22" * 20, _secret(7)
+        if case.get("welen", 32) != 32:
+            # a write enabler the fixed-width header field cannot hold: either the container refuses it, or it must come back as it went in
+            we = (we * 2)[:case["welen"]]
+            classes.append("container-mut-odd-enabler-length")
+            try:
+                msf.create(nodeid, we)
+            except (ValueError, struct.error, AssertionError):
+                classes.append("container-mut-odd-enabler-refused")
+                ctx.note(sig=("cont", kind, case["welen"]), nontrivial=True, classes=classes, sample=case)
+                return
+            m2 = MutableShareFile(fn)
+            try:
+                m2.check_write_enabler(we, b"si")
+                other_ok = False
+                for alt in (we.ljust(32, b"\x00"), we[:32], we + b"\x00"):
+                    if alt != we:
+                        try:
+                            m2.check_write_enabler(alt, b"si")
+                            other_ok = True
+                        except Exception:
+                            pass
+                ctx.check(not other_ok, "header-field-misread", "mutable v%d container created with a %d-byte write enabler also accepts a different (padded/truncated) secret" % (ver, len(we)), welen=len(we))
+            except Violation:
+                raise
+            except Exception as e:
+                ctx.fail("header-field-misread", "mutable v%d container created with a %d-byte write enabler does not recognise it afterwards (%s): the header stored a different value" % (ver, len(we), type(e).__name__), welen=len(we))
+            ctx.note(sig=("cont", kind, case["welen"]), nontrivial=True, classes=classes, sample=case)
+            return
         msf.create(nodeid, we)
         msf.writev([(0, data)], None)
         for l in leases:
